@@ -184,8 +184,8 @@ def _rest(ck, fa, R3, R4, R5, R6):
                                   "a codec reads through the mutable pointer (input_nonversioned): the memento no longer pins its bytes", A.loc(m, call))
     pp = FA(ck, "storage_base.DefaultCodec.PicklePartition.get")
     lc = pp.one(pp.calls("load"), "codec.load call")
-    okp = [A.norm(a) for a in lc.args] == ["index_entry.result_type", "self._data_source", "index_entry.content_key"]
-    ck.ob(R3, pp.key(lc), okp, "partition values are loaded by their indexed versioned key" if okp else
+    okp = [pp.xnorm(a, pp.nodes(lc)[0]) for a in lc.args] == ["self._index[key].result_type", "self._data_source", "self._index[key].content_key"]
+    ck.ob(R3, pp.key(None, "loads-indexed-key"), okp, "partition values are loaded by their indexed versioned key" if okp else
           "partition get() does not load (entry.result_type, data source, entry.content_key)", pp.where(lc))
     pi = FA(ck, "storage_base.DefaultCodec.PicklePartition.__init__")
     iv = pi.calls("input_versioned")
@@ -255,8 +255,8 @@ def _rest(ck, fa, R3, R4, R5, R6):
     ck.ob(R5, gp.key(None, "version-in-path"), okv, "every versioned path contains key.version" if okv else
           "a versioned path is built without the version component", gp.where())
     rk = fo.one(fo.returns(), "return")
-    okrk = A.norm(rk.value) == "versioned_key" and "call:uuid4" in fo.deps(rk.value)
-    ck.ob(R5, fo.key(rk, "returns-fresh-key"), okrk, "output returns the fresh versioned key" if okrk else
+    okrk = fo.xnorm(rk.value).startswith("VersionedDataSourceKey(") and "call:uuid4" in fo.deps(rk.value)
+    ck.ob(R5, fo.key(None, "returns-fresh-key"), okrk, "output returns the fresh versioned key" if okrk else
           "output does not return the versioned key it just wrote", fo.where(rk))
     for q, lst in ck.cg.fs_write_sites.items():
         if not q.startswith("storage_filesystem.") and not q.startswith("storage_base."):
@@ -305,13 +305,13 @@ def _rest(ck, fa, R3, R4, R5, R6):
     asg = asgs[0]
     d6 = mz.deps(asg.value)
     ok6 = "call:store" in d6 and "attr:self.codec" in d6
-    ck.ob(R6, mz.key(asg, "from-store"), ok6, "content_key is what codec.store returned" if ok6 else
+    ck.ob(R6, mz.key(None, "from-store"), ok6, "content_key is what codec.store returned" if ok6 else
           "memento.content_key does not come from codec.store", mz.where(asg))
     pm_calls = mz.some(mz.calls("put_memento"), "put_memento call")
     okb = all(mz.cfg.must_pass(mz.nodes(asg), i) for i in mz.nodes_all(pm_calls))
-    ck.ob(R6, mz.key(asg, "before-put"), okb, "assigned before the memento is written" if okb else
+    ck.ob(R6, mz.key(None, "before-put"), okb, "assigned before the memento is written" if okb else
           "the memento can be written before its content key is set", mz.where(asg))
     st = mz.one([c for c in mz.calls("store") if A.dotted(A.call_recv(c)) == "self.codec"], "codec.store call")
-    oks = [A.norm(a) for a in st.args] == ["result_type", "self._data_source", "key_override", "result"]
-    ck.ob(R6, mz.key(st, "store-args"), oks, "store(result_type, data source, key_override, result)" if oks else
+    oks = [mz.xnorm(a, mz.nodes(st)[0]) for a in st.args] == ["memento.invocation_metadata.result_type", "self._data_source", "key_override", "result"]
+    ck.ob(R6, mz.key(None, "store-args"), oks, "store(result_type, data source, key_override, result)" if oks else
           "codec.store is not given (result_type, self._data_source, key_override, result)", mz.where(st))
